@@ -1,6 +1,145 @@
-From Coq Require Import List ZArith Bool.
-From SFV Require Import C08.Model C08.Proofs.
+(* C08 — Register and simulator agree on which modes exist, for every history.
+   This file holds only statements, closed by `exact`, each followed by its axiom audit.
 
-Theorem C08_stub : True.
-Proof. exact stub_true. Qed.
-Print Assumptions C08_stub.
+   Vocabulary (coq/C08/Model.v): a history is a list of New n / Del S / Disp i k / Swap i j / Meas S /
+   Seg operations; [spec_run n h] is the specification state after h from n initial modes — a finite map
+   index -> live with integer data | dead, in which operations naming a dead, unknown or repeated index are
+   skipped; [fock_run], [gauss_run], [bos_run] run the modelled Program register in front of the modelled
+   Fock / Gaussian / bosonic bookkeeping; [view s] lists (index, data) of the live indices in increasing order. *)
+From Coq Require Import List ZArith Bool Arith Sorted.
+Import ListNotations.
+From SFV Require Import C08.Model C08.Proofs C08.ProofsPS C08.ProofsFock C08.ProofsMain C08.Refuted.
+
+(* --- a mode keeps its index for life: the register only grows, a dead index never comes back,
+       and New hands out exactly the next unused indices *)
+Theorem C08_index_for_life : forall n h1 h2 i,
+  let r1 := prog_run (prog_init n) h1 in
+  let r2 := prog_run (prog_init n) (h1 ++ h2) in
+  i < length r1 -> i < length r2 /\ (nth i r1 false = false -> nth i r2 false = false).
+Proof. exact index_for_life. Qed.
+Print Assumptions C08_index_for_life.
+
+Theorem C08_new_assigns_fresh_indices : forall r n, 1 <= n -> prog_step r (New n) = (r ++ repeat true n, Ok).
+Proof. exact new_assigns_fresh. Qed.
+Print Assumptions C08_new_assigns_fresh_indices.
+
+(* --- register and simulator agree on which modes exist, after every history *)
+Theorem C08_agree_fock : forall n h,
+  prog_register (fst (fock_run n h)) = slives (spec_run n h) /\
+  fock_modes (snd (fock_run n h)) = slives (spec_run n h).
+Proof. exact agree_fock. Qed.
+Print Assumptions C08_agree_fock.
+
+Theorem C08_agree_gauss : forall n h,
+  prog_register (fst (gauss_run n h)) = slives (spec_run n h) /\
+  ps_modes (snd (gauss_run n h)) = slives (spec_run n h).
+Proof. exact agree_gauss. Qed.
+Print Assumptions C08_agree_gauss.
+
+(* bosonic circuit: only for histories whose New create one mode at a time (see the _refuted below) *)
+Theorem C08_agree_bos_partial : forall n h, forallb new_le1 h = true ->
+  prog_register (fst (bos_run n h)) = slives (spec_run n h) /\
+  ps_modes (snd (bos_run n h)) = slives (spec_run n h).
+Proof. exact agree_bos. Qed.
+Print Assumptions C08_agree_bos_partial.
+
+Theorem C08_agree_bos_refuted : exists n h,
+  ps_modes (snd (bos_run n h)) <> slives (spec_run n h) /\ prog_register (fst (bos_run n h)) = slives (spec_run n h).
+Proof. exact bos_agree_refuted. Qed.
+Print Assumptions C08_agree_bos_refuted.
+
+Theorem C08_accept_bos_refuted : exists n h o s',
+  sstep (spec_run n h) o = Some s' /\ snd (pstep ps bos_step (bos_run n h) o) = Err IndexError.
+Proof. exact bos_accept_refuted. Qed.
+Print Assumptions C08_accept_bos_refuted.
+
+(* --- deleted / unknown / repeated modes are rejected with an error and nothing changes;
+       everything else is accepted without error by both sides *)
+Theorem C08_reject_fock : forall n h o, sstep (spec_run n h) o = None ->
+  exists e, pstep fock fock_step (fock_run n h) o = (fock_run n h, Err e).
+Proof. exact reject_fock. Qed.
+Print Assumptions C08_reject_fock.
+
+Theorem C08_accept_fock : forall n h o s', sstep (spec_run n h) o = Some s' ->
+  pstep fock fock_step (fock_run n h) o = (fock_run n (h ++ [o]), Ok).
+Proof. exact accept_fock. Qed.
+Print Assumptions C08_accept_fock.
+
+Theorem C08_reject_gauss : forall n h o, sstep (spec_run n h) o = None ->
+  exists e, pstep ps gauss_step (gauss_run n h) o = (gauss_run n h, Err e).
+Proof. exact reject_gauss. Qed.
+Print Assumptions C08_reject_gauss.
+
+Theorem C08_accept_gauss : forall n h o s', sstep (spec_run n h) o = Some s' ->
+  pstep ps gauss_step (gauss_run n h) o = (gauss_run n (h ++ [o]), Ok).
+Proof. exact accept_gauss. Qed.
+Print Assumptions C08_accept_gauss.
+
+Theorem C08_reject_bos_partial : forall n h o, forallb new_le1 h = true -> sstep (spec_run n h) o = None ->
+  exists e, pstep ps bos_step (bos_run n h) o = (bos_run n h, Err e).
+Proof. exact reject_bos. Qed.
+Print Assumptions C08_reject_bos_partial.
+
+(* --- the Fock ModeMap restricted to the live indices is the order isomorphism onto [0, #live)
+       and the tensor has exactly #live axes, after any interleaving of alloc / dealloc *)
+Theorem C08_fock_axis_bijection : forall n h,
+  let s := spec_run n h in let b := snd (fock_run n h) in
+  (forall i, nth_error (fmap b) i =
+             match nth_error s i with
+             | Some (Some _) => Some (Some (rank s i)) | Some None => Some None | None => None end)
+  /\ length (faxes b) = count_some s
+  /\ (forall i, slive s i = true -> rank s i < count_some s)
+  /\ (forall i j, i < j -> slive s i = true -> rank s i < rank s j).
+Proof. exact fock_axis_bijection. Qed.
+Print Assumptions C08_fock_axis_bijection.
+
+(* --- the returned state: exactly the live modes, in index order, own label, own data *)
+Theorem C08_state_content_fock : forall n h, fock_state (snd (fock_run n h)) = view (spec_run n h).
+Proof. exact state_fock. Qed.
+Print Assumptions C08_state_content_fock.
+
+(* Gaussian state(): right while no live index sits behind a dead one, in particular without Del *)
+Theorem C08_state_content_gauss_partial : forall n h,
+  prefix_live (spec_run n h) -> gauss_state (snd (gauss_run n h)) = view (spec_run n h).
+Proof. exact state_gauss_prefix. Qed.
+Print Assumptions C08_state_content_gauss_partial.
+
+Theorem C08_state_content_gauss_no_del : forall n h,
+  forallb no_del h = true -> gauss_state (snd (gauss_run n h)) = view (spec_run n h).
+Proof. exact state_gauss_no_del. Qed.
+Print Assumptions C08_state_content_gauss_no_del.
+
+Theorem C08_state_content_gauss_refuted : exists n h,
+  gauss_state (snd (gauss_run n h)) <> view (spec_run n h)
+  /\ map fst (gauss_state (snd (gauss_run n h))) = map fst (view (spec_run n h)).
+Proof. exact gauss_state_refuted. Qed.
+Print Assumptions C08_state_content_gauss_refuted.
+
+(* with the slot selection repaired (read the slots named by get_modes(), as the bosonic backend does)
+   the Gaussian bookkeeping satisfies the full statement *)
+Theorem C08_state_content_gauss_repaired : forall n h, bos_state (snd (gauss_run n h)) = view (spec_run n h).
+Proof. exact state_gauss_repaired. Qed.
+Print Assumptions C08_state_content_gauss_repaired.
+
+Theorem C08_state_content_bos_partial : forall n h, forallb new_le1 h = true ->
+  bos_state (snd (bos_run n h)) = view (spec_run n h).
+Proof. exact state_bos. Qed.
+Print Assumptions C08_state_content_bos_partial.
+
+(* --- [view] means what the property says *)
+Theorem C08_view_exactly_live_own_data : forall s i d, In (i, d) (view s) <-> nth_error s i = Some (Some d).
+Proof. exact view_In. Qed.
+Print Assumptions C08_view_exactly_live_own_data.
+
+Theorem C08_view_index_order : forall s, StronglySorted lt (map fst (view s)).
+Proof. exact view_sorted. Qed.
+Print Assumptions C08_view_index_order.
+
+(* --- hypotheses are satisfiable / statements are not vacuous *)
+Example C08_ex_history : list op := [Disp 0 1%Z; New 1; Del [1; 0]; Swap 3 2; Meas [2]; Seg None; Seg (Some 2); New 1; Del [3]].
+Example C08_ex_nontrivial : view (spec_run 3 C08_ex_history) = [(2, 0%Z); (4, 0%Z)] /\ forallb new_le1 C08_ex_history = true.
+Proof. split; vm_compute; reflexivity. Qed.
+Example C08_ex_prefix_live : prefix_live (spec_run 3 [Disp 1 2%Z; Del [2]]) /\ forallb no_del [Disp 1 2%Z; New 2; Meas [0]] = true.
+Proof. split; [exists [0%Z; 2%Z], 1; vm_compute; reflexivity | reflexivity]. Qed.
+Example C08_ex_rejected : sstep (spec_run 2 [Del [0]]) (Disp 0 1%Z) = None /\ sstep (spec_run 2 [Del [0]]) (Disp 1 1%Z) <> None.
+Proof. split; vm_compute; [reflexivity | discriminate]. Qed.
